@@ -72,6 +72,7 @@ func genWorkspace(t *rapid.T, o semGenOpts) Workspace {
 		cfg.SameNameForOK = o.SameNameOutsideInit
 		cfg.SameNameAssignOK = o.SameNameOutsideInit
 		cfg.AritySlack = true
+		cfg.LibNames = true
 		cfg.Globals = []string{"G1", "G2", "gfun", "Gtab"}
 		cfg.Builtins = builtinNames
 		cfg.Prefix = fmt.Sprintf("f%d", i)
@@ -179,6 +180,17 @@ func fmtLocs(ls []Loc) string {
 	}
 	sort.Strings(s)
 	return "{" + strings.Join(s, ", ") + "}"
+}
+
+// dcOcc: an occurrence whose resolution no property speaks about — self, _G, _ENV always; the names of
+// the standard library only when the occurrence is not bound to a local (a local called `type` is an
+// ordinary variable).
+func dcOcc(o *reflua.Occ) bool {
+	switch o.Name.Text {
+	case "self", "_G", "_ENV", "_VERSION":
+		return true
+	}
+	return o.Decl == nil && dcName(o.Name.Text)
 }
 
 // dcName: names whose resolution no property speaks about.
